@@ -119,6 +119,31 @@ pub fn c09(a: &Args) {
             } }
         }
     }
+    // models with 66 / 100 / 130 features, almost all of them free (the root and-node merges one child sample per free feature)
+    for total in [66u32, 100, 130] {
+        let lines = vec!["o 1 0".to_string(), "t 2 0".to_string(), "1 2 1 2 -3 0".to_string(), "1 2 1 -2 3 0".to_string()];   // x1 and (x2 xor x3)
+        let text = format!("{} (-t {total})", lines.join(" / "));
+        let Ok(mut d) = guarded(move || ddnnife::parser::distribute_building(lines, Some(total), None)) else { out.fail("load-panic", &text, "load", "panic", "model"); continue };
+        for t in 1..=2usize {
+            out.eval(Some(format!("{text}|t={t}")));
+            out.count("twise_many_free_features", 1);
+            let reply = guarded(|| d.handle_stream_msg(&format!("t-wise l {t}")));
+            let Ok(reply) = reply else { out.fail("twise-panic", &text, &format!("t-wise l {t}"), "panic", "a sample"); continue };
+            let Some(sample) = parse_sample(&reply) else { out.fail("twise-unparsable", &text, &format!("t-wise l {t}"), &reply.chars().take(80).collect::<String>(), "a sample"); continue };
+            let n = total as i32;
+            let bad = sample.iter().find(|c| c.len() != total as usize || !(1..=n).all(|v| c.contains(&v) != c.contains(&-v)) || !c.contains(&1) || (c.contains(&2) == c.contains(&3)));
+            if let Some(c) = bad { out.fail("twise-invalid-configuration", &text, &format!("t-wise l {t}"), &format!("{} literals, starts {:?}", c.len(), &c[..c.len().min(5)]), "complete models"); continue; }
+            // coverage: every single literal that occurs in a model; for t = 2 every pair of literals of two free features and of (x2, a free feature)
+            let valid = |l: i32| l != -1;
+            let uncovered1 = (1..=n).flat_map(|v| [v, -v]).find(|&l| valid(l) && !sample.iter().any(|c| c.contains(&l)));
+            if let Some(l) = uncovered1 { out.fail("twise-uncovered-interaction", &text, &format!("t-wise l {t}"), &format!("literal {l} occurs in a model but in no configuration"), "every valid interaction covered"); continue; }
+            if t == 2 {
+                let probes = [(4, 5), (4, n), (n - 1, n), (2, n), (3, 37.min(n))];
+                let unc = probes.iter().flat_map(|&(x, y)| [(x, y), (x, -y), (-x, y), (-x, -y)]).find(|&(x, y)| !sample.iter().any(|c| c.contains(&x) && c.contains(&y)));
+                if let Some((x, y)) = unc { out.fail("twise-uncovered-interaction", &text, "t-wise l 2", &format!("interaction [{x}, {y}] is contained in a model but in no configuration"), "every valid interaction covered"); }
+            }
+        }
+    }
     crate::cli_props::cli_pass(a, &mut out, &mut rng, &["t-wise"]);
     out.finish("(+ CLI pass: the rebuilt binary's `t-wise` on a sample of the models, judged by the same oracles) every model of the C01 space (n <= 8) x t in 1..5 x {plain, fitness vectors with negative, zero, tied and fractional values} x 3 (quick) / 5 (thorough) runs each (every run differs in hash iteration order): stream `t-wise l t [f ..]`; every configuration must be a complete model and every t-interaction contained in a model must be contained in a configuration (brute force over the truth table of the input text); the same sample is judged by the Lean checker TWise.check (proved sound) on the exported node array; corpus models with <= 60 features for t = 1, 2 judged by count / sat");
 }
